@@ -191,6 +191,9 @@ func (r *SenderReport) Unmarshal(rawPacket []byte) error {
 	r.PacketCount = binary.BigEndian.Uint32(packetBody[srPacketCountOffset:])
 	r.OctetCount = binary.BigEndian.Uint32(packetBody[srOctetCountOffset:])
 
+	r.Reports = nil
+	r.ProfileExtensions = nil
+
 	offset := srReportOffset
 	for i := 0; i < int(h.Count); i++ {
 		rrEnd := offset + receptionReportLength
